@@ -285,6 +285,12 @@ Definition s_obs (s : ssys) (r : mres) (closed : bool) : obs :=
   mkObs r (r_exists ueq (ss_kv s) tt) None
         (match r_ttl ueq (ss_kv s) tt with Some (Some t) => t | Some None => (-1) | None => (-2) end)
         (if closed then s_closed_flags s else []).
+(* after MReg / MStop the TTL of an existing key is not compared: a background
+   tick of any registered registrant may or may not have refreshed it already;
+   it is compared after MTickAll (settled) and MLapse (key absent) *)
+Definition mask_ttl (o : obs) : obs :=
+  mkObs (o_res o) (o_key o) (o_owner o) (if o_key o then 0 else o_ttl o) (o_closed o).
+
 Definition max_ttl (s : ssys) : Z :=
   fold_left (fun m g => Z.max m (Z.max (q_ttl g) (refresh_ms (q_ttl g)))) (ss_rs s) 0.
 
@@ -295,12 +301,12 @@ Definition s_mop (s : ssys) (m : mop) : ssys * obs :=
       let r := match nth_error (ss_rs s1) i with
                | Some g => match q_pc g with SActive => ResOk | SRejected => ResExists | _ => ResOther end
                | None => ResOther end in
-      (s1, s_obs s1 r false)
+      (s1, mask_ttl (s_obs s1 r false))
   | MLapse => let s1 := try_step sstep s (QTime (max_ttl s + 1)) in (s1, s_obs s1 ResNone false)
   | MTickAll =>
       let s1 := fold_left (fun st i => try_step sstep st (QTick i)) (seq 0 (length (ss_rs s))) s in
       (s1, s_obs s1 ResNone true)
-  | MStop i => let s1 := try_step sstep s (QStop i) in (s1, s_obs s1 ResNone true)
+  | MStop i => let s1 := try_step sstep s (QStop i) in (s1, mask_ttl (s_obs s1 ResNone true))
   end.
 
 Fixpoint s_run (s : ssys) (ms : list mop) : list obs :=
@@ -342,7 +348,7 @@ Definition w_mop {S} (mopf : S -> mop -> S * obs) (obsf : S -> mres -> bool -> o
       ((s3, p'), obsf s3 ResNone true)
   | MStop i =>
       match p with
-      | Some j => if Nat.eqb i j then ((s, None), obsf s ResNone true)
+      | Some j => if Nat.eqb i j then ((s, None), mask_ttl (obsf s ResNone true))
                   else let '(s', o) := mopf s (MStop i) in ((s', p), o)
       | None => let '(s', o) := mopf s (MStop i) in ((s', p), o)
       end
